@@ -947,3 +947,11 @@ mod test {
         }
     }
 }
+
+#[cfg(feature = "verif-hooks")]
+impl Decoder {
+    /// (current table size, table max size, last max size allowed by settings)
+    pub fn verif_table_size(&self) -> (usize, usize, usize) {
+        (self.table.size, self.table.max_size, self.last_max_update)
+    }
+}
